@@ -95,6 +95,11 @@ type Disk struct {
 	failWrites int
 
 	Reads, Writes int
+
+	// Yield, when set, is called (no disk lock held) at the start of every mutation and read, and
+	// again after every completed mutation: the seam a ParkSched uses to decide which caller goroutine
+	// proceeds.
+	Yield func()
 }
 
 func NewDisk(f *Fence) *Disk {
@@ -253,6 +258,9 @@ func labelOps(ops []journalOp) string {
 
 // apply performs one atomic mutation on behalf of incarnation epoch.
 func (d *Disk) apply(epoch int, kind string, ops []journalOp) error {
+	if d.Yield != nil {
+		d.Yield()
+	}
 	d.mu.Lock()
 	if !d.fence.Alive(epoch) {
 		d.mu.Unlock()
@@ -288,6 +296,9 @@ func (d *Disk) apply(epoch int, kind string, ops []journalOp) error {
 	d.ops = append(d.ops, ops)
 	d.Writes++
 	d.mu.Unlock()
+	if d.Yield != nil {
+		d.Yield()
+	}
 	return nil
 }
 
@@ -306,6 +317,9 @@ type Handle struct {
 var _ ds.Batching = (*Handle)(nil)
 
 func (h *Handle) check() error {
+	if h.d.Yield != nil {
+		h.d.Yield()
+	}
 	if !h.d.fence.Alive(h.epoch) {
 		return ErrCrashed
 	}
